@@ -53,7 +53,7 @@ example : stable
     (.wrap [1,0] (.withStack [⟨7, b!"main.f\n\tf.go:1"⟩])
       (.wrap [1,1] (.withPrefix (b!"outer"))
         (.second [2,0]
-          (.wrap [3,0] (.user ⟨b!"x/y/*y.W", b!"*y.W", 0, []⟩ (b!"ctx"))
+          (.wrap [3,0] (.user ⟨b!"x/y/*y.W", b!"*y.W", 0, [], 0⟩ (b!"ctx"))
             (.multi [4,0] .join [.leaf [5,0] (.errorString (b!"a")), .barrier [6,0] ⟨b!"m", none⟩ (.leaf [7,0] .deadline)]))
           (.leaf [8,0] (.pkgFundamental (b!"sec") [⟨9, b!"main.g\n\tg.go:2"⟩]))))) = true := by decide
 
